@@ -484,10 +484,11 @@ def opsEq : Ops → Ops → Bool
   | _, _ => false
 end
 
-/-- `AbstractConstraint.isSuperTypeOf`:
-    `other is self or not self._values or other == self or self in other.getValueMap()` -/
+/-- `AbstractConstraint.isSuperTypeOf` (after fix 5ea3865):
+    `other is self or not self._values or (hash(other) == hash(self) and other == self)
+     or self in other.getValueMap()` — equal hash and `==` is structural equality (the class counts) -/
 def baseIsSuperTypeOf (self other : Constr) : Bool :=
-  !self.truthy || pyEq other self || decide (self ∈ valueMap other)
+  !self.truthy || decide (other = self) || decide (self ∈ valueMap other)
 
 mutual
 /-- `ConstraintsIntersection._isImposedBy(constraint, other)` (fixes f8fea03, a3e4c68): equal hash and
@@ -517,10 +518,10 @@ def isSuperTypeOf (self other : Constr) : Bool :=
   | .mk .intersection ops => baseIsSuperTypeOf self other || imposedAll ops other
   | _ => baseIsSuperTypeOf self other
 
-/-- `AbstractConstraint.isSubTypeOf`:
-    `other is self or not self or other == self or other in self._valueMap` -/
+/-- `AbstractConstraint.isSubTypeOf` (after fix 5ea3865):
+    `other is self or not self or (hash(other) == hash(self) and other == self) or other in self._valueMap` -/
 def isSubTypeOf (self other : Constr) : Bool :=
-  !self.truthy || pyEq other self || decide (other ∈ valueMap self)
+  !self.truthy || decide (other = self) || decide (other ∈ valueMap self)
 
 /-- `subtypeSpec + extra` as `subtype()` computes it: `ConstraintsIntersection.__add__` appends to
     the operand tuple; any other subtypeSpec is first wrapped into an intersection (fix 8df4c27) -/
@@ -561,8 +562,10 @@ def isSuperTagSetOf (a b : TagSet) : Bool :=
 def STy.isSuperTypeOf (a b : STy) : Bool :=
   isSuperTagSetOf a.tags b.tags && Constraint.isSuperTypeOf a.spec b.spec
 
+/-- `Asn1Type.isSameTypeWith` (after fix 9c46fea): equal tag sets, and constraint sets with equal hash
+    and `==`, i.e. structurally equal -/
 def STy.isSameTypeWith (a b : STy) : Bool :=
-  TagSet.same a.tags b.tags && pyEq a.spec b.spec
+  TagSet.same a.tags b.tags && decide (a.spec = b.spec)
 
 inductive Tagging
   | none
